@@ -5,6 +5,7 @@ CONSTANTS NK = 1
   KGen <- G1_1
   MaxN = 2
   OtherKinds <- OthersOne
+  RawModes <- RawNone
   D = 0
 INIT Init
 NEXT Next
